@@ -9,6 +9,8 @@ def run(tier):
     rep = vlib.Report(PROP, tier)
     binary = vlib.build_harness()
     common.mc_replay(rep, binary, PROP, "MC_C10", keyf=common.default_key)
+    # (growth) the same Incomplete / Needed contract over a whole run: the streaming consumer of Stream.tla on DTLS records
+    common.stream_runs(rep, binary, PROP, ["parse_dtls_plaintext_record"], 3, thorough=(tier == "thorough"))
     return rep.finish("model_checking",
                       "cases = DTLS records over a grid of content types, epochs {0,1,0x0102,0xffff}, sequence numbers up to 2^48-1, "
                       "payload pools, every prefix cut and trailing bytes, the cap boundary; handshake headers over the fragment grid "
